@@ -46,11 +46,26 @@ pub(crate) async fn handshake(
             let mut send_stream = connection.open_uni().await?;
             write_version_frame(&mut send_stream, Version::V1).await?;
             send_stream.finish()?;
+            #[cfg(bmwill_anemo_verif)]
+            crate::verif::emit(
+                "hs.ack_sent",
+                crate::verif::json!({ "gid": connection.verif_gid(), "origin": "in" }),
+            );
             send_stream.stopped().await?;
+            #[cfg(bmwill_anemo_verif)]
+            crate::verif::emit(
+                "hs.ack_confirmed",
+                crate::verif::json!({ "gid": connection.verif_gid(), "origin": "in" }),
+            );
         }
         crate::ConnectionOrigin::Outbound => {
             let mut recv_stream = connection.accept_uni().await?;
             read_version_frame(&mut recv_stream).await?;
+            #[cfg(bmwill_anemo_verif)]
+            crate::verif::emit(
+                "hs.ack_read",
+                crate::verif::json!({ "gid": connection.verif_gid(), "origin": "out" }),
+            );
         }
     }
     Ok(connection)
